@@ -149,14 +149,14 @@ PROPERTIES = {
                            "tightened bounds contain every in-bounds integer solution and never widen; combination counts are the "
                            "product over non-zero columns. bounded stand-in: matrices up to 3x3 incl. large coefficients against "
                            "brute force, and the same polyhedron object queried repeatedly."},
-    "C13": {"harness_modules": ["contracts.c13"], "rt": ["rt.arrays:c13_compress"], "level": "other",
+    "C13": {"harness_modules": ["contracts.c13"], "rt": ["rt.arrays:a_rs2_bit_allocation", "rt.arrays:c13_compress"], "level": "other",
             "assumptions": S_ALL + ["A-rs2: py_optimized_bit_allocation_64 (compiled Rust) is not under contract: the dominance claim of "
                                     "'shadow' rests on it and is covered by the bounded stand-in only"],
             "explanation": "deductive (2-D arrays 1x2, 2x2, 3x2, 2x3 with symbolic entries, both axes; 1-D with axis=None): 'first' / "
                            "'last' / 'min' / 'max' return the first / last non-zero, the smallest non-zero (0 if none) and the largest "
                            "entry of each line. bounded stand-in: 'shadow' (zeros, signs, ties, order incl. later rows above earlier, "
-                           "strict dominance, priorities beyond 2**53), 'prio' / 'rank' (dense, order preserving), batched 3-D."},
-    "C14": {"harness_modules": ["contracts.c14"], "lean": True, "rt": ["rt.config:c14_objectives"], "level": "other",
+                           "strict dominance, priorities beyond 2**53), 'prio' / 'rank' (dense, order preserving), batched 3-D. ADDED: ranking (1-D, row-wise 2-D), prio/rank (1x2, 2x1, 2x2; 2x3, 3x2 thorough; both axes) and shadow (1-D n<=3, 2-D <=2x2; larger thorough) through the real Python code with symbolic entries; for shadow the compiled bit allocation is replaced by the executable form of its assumed contract A-rs2 (pyvc.rsmodel), which is validated against the compiled function at run time."},
+    "C14": {"harness_modules": ["contracts.c14"], "lean": True, "rt": ["rt.arrays:a_rs2_bit_allocation", "rt.config:c14_objectives"], "level": "other",
             "assumptions": S_ALL + ["A-rs2: the weights come from puan_rspy.py_optimized_bit_allocation_64 (compiled Rust, not under "
                                     "contract); 'shadow' compression is C13 (bounded stand-in)"],
             "explanation": "deductive: cc.Any.__init__ / cc.Xor.__init__ (real source, abstract duplicate-free boolean children of any "
